@@ -300,7 +300,7 @@ def write_and_inspect(case_desc, yx, layout, dtype, ndkind, blocksize, src_chunk
 SHAPES = ((1, 1), (1, 33), (33, 1), (16, 16), (17, 31), (64, 48), (70, 50), (100, 130), (2, 40),
           # elongated: padding to 2^levels adds whole tiles
           (1, 300), (300, 1), (3, 200))
-LAYOUTS = ("YX", ("YXS", 2), ("YXS", 3), ("YXS", 4), ("SYX", 1), ("SYX", 2), ("SYX", 5))
+LAYOUTS = ("YX", ("YXS", 2), ("YXS", 3), ("YXS", 4), ("SYX", 1), ("SYX", 2), ("SYX", 3), ("SYX", 4), ("SYX", 5), ("SYX", 6))
 
 
 def gen_s1(tier):
@@ -352,7 +352,9 @@ def run_s2(case):
     return r
 
 
-BLOCKS = ([16], [32, 16], [16, 32], [(16, 32)], [20], [48], [256])
+BLOCKS = ([16], [32, 16], [16, 32], [(16, 32)], [20], [48], [256],
+          # lists with more entries than the pyramid has levels (a fixed "house" list used on small images)
+          [32, 16, 16, 16], [64, 32, 16, 16, 16, 16], [16] * 8, [1024, 512, 512], [48, 32, 16])
 SRC_CHUNKS = {"tile": None, "smaller": (8, 8), "larger": (64, 64), "non-dividing": (23, 17),
               # irregular chunks whose largest chunk equals the tile size / band axis split over several chunks
               "irregular": "irregular", "irregular-first-small": "irregular2", "band-split": "band-split",
@@ -363,7 +365,10 @@ def gen_s3(tier):
     def g():
         for bi, _ in enumerate(BLOCKS):
             for sc in SRC_CHUNKS:
-                for yx, layout in (((70, 50), "YX"), ((33, 100), ("SYX", 2)), ((40, 37), ("YXS", 3)), ((50, 70), ("YXS", 5))):
+                for yx, layout in (((70, 50), "YX"), ((33, 100), ("SYX", 2)), ((40, 37), ("YXS", 3)), ((50, 70), ("YXS", 5)),
+                                   ((37, 53), ("SYX", 3)), ((301, 517), "YX")):
+                    if yx == (301, 517) and not (len(BLOCKS[bi]) >= 3 and sc in ("tile", "larger")):
+                        continue  # the large odd-sized image only with the long lists
                     if sc.startswith("band-split") and layout == "YX":
                         continue
                     yield ("s3", bi, sc, yx, layout)
